@@ -8,7 +8,8 @@ static const char *NAMES[] = {"a", "b", "c", "ab", "", NULL, "exp", "alg", "typ"
 static const int N_NAMES = (int)ARRAY_LEN(NAMES);
 static const long INTS[] = {0, 1, -1, 42, LONG_MAX, LONG_MIN, 2147483647L, -2147483648L, 1700000000L};
 static const char *JSONS_OK[] = {"{}", "[]", "{\"x\":1}", "[1,2,3]", "{\"a\":{\"b\":[null,true,1.5,\"s\"]}}", "[[[]]]", "{\"a\":\"new\",\"zz\":false}",
-				 "{\"b\":2,\"c\":[1],\"q\":null}", " { \"sp\" : 1 } ", "{\"\xc3\xa9\":\"\xf0\x9f\x98\x80\"}"};
+				 "{\"b\":2,\"c\":[1],\"q\":null}", " { \"sp\" : 1 } ", "{\"\xc3\xa9\":\"\xf0\x9f\x98\x80\"}",
+				 "{\"a\":1.5,\"b\":-0.0,\"c\":1e300}", "{\"ab\":2.0,\"exp\":1700000000.5,\"a\":null}"};
 static const char *JSONS_BAD[] = {"", "{", "nope", "{\"a\":}", "5", "\"str\"", "true", "null", "{\"a\":1,}", "[1,", "{'a':1}", "1.5"};
 
 enum { T_INT = 0, T_STR, T_BOOL, T_JSON };
@@ -287,7 +288,7 @@ static void run_op(MapRun &mr, const Step &s, size_t si)
 	} else
 		return;
 	ctx.logf("%s -> %s (model %s)%s", desc.c_str(), verr_name(rc), dontcare_rc ? "dont-care" : verr_name(want), fired ? " [alloc fault fired]" : "");
-	ctx.sig(strf("C15|%s|%s|%s|%d|rc%d%s", mr.where, s.op.c_str(), hdr ? "h" : "c", (int)s.I("type"), rc, fired ? "|fault" : ""));
+	ctx.sig(strf("C15|%s|%s|%s|%d|n%lld|r%lld|rc%d%s", mr.where, s.op.c_str(), hdr ? "h" : "c", (int)s.I("type"), (long long)s.I("name") % N_NAMES, (long long)s.I("replace"), rc, fired ? "|fault" : ""));
 	mr.steps_done++;
 	if (fired) {
 		ctx.count("fault:alloc_fail_in_setget");
